@@ -32,6 +32,11 @@ CLAIMED = {
    note="Bounds: chromosome layouts up to (3,2) quick / (5),(3,3),(2,2,2) thorough, every admissible block total, taxa<=2 (3), traits 1 (2); exact reals. Replays poison numpy.empty with NaN so unwritten cells are observable.",
    technique="symbolic execution on z3-term arrays (symnp) + z3 per-path obligations, replay on real numpy",
    design="2/C18"),
+   "C20": dict(
+   text="CrossHair (symbolic execution of Python with z3) on the real RecurrentSelectionBreedingProgram.evolve/advance/reset/initialize driven by recording subclasses of the real operator and logbook base classes: for every number of replicates and generations within the bound, loginit, pre-initialised or not, and every combination of operators mutating their inputs in place, the recorded trace (call order, time index, contents each operator/logbook receives, logbook replicate counter) equals the reference trace and the stored start state is unchanged; 'Confirmed over all paths' is required, a reachability twin (post: False) must be refuted, counterexamples are replayed concretely.",
+   note="Bounds: nrep,ngen<=2, t_max=1 (quick); <=3 and t_max in 0..2 (thorough). In-place-mutation flags are enumerated over 16 harness instances, the rest is symbolic. Engine='symnp' runner only schedules the CrossHair processes.",
+   technique="CrossHair symbolic execution (z3) of the real loop with PEP316 contracts; Confirmed-over-all-paths required; reachability twin; concrete replay",
+   design="2/C20"),
 }
 NA = {}
 for pid in props:
@@ -46,7 +51,7 @@ for pid, c in sorted(CLAIMED.items()):
         thorough_cmd="./check %s --tier thorough" % pid,
         evidence_file="/verif/evidence/%s.json" % pid,
         replay_cmd_template="./check %s --replay {path}" % pid,
-        engine="symnp",
+        engine="crosshair" if pid == "C20" else "symnp",
         level_claimed=dict(category="model_checking", text=c["text"], design_ref=c["design"]),
         level_note=c["note"],
         technique=c["technique"]))
@@ -57,7 +62,8 @@ man = dict(
                baseline_off_cmd="cd /repo && /venv/bin/python -m pytest -ra -q -p no:cacheprovider --timeout=900 --continue-on-collection-errors",
                source_commits=[], add_only=True),
     engines=[dict(name="symnp", path="/verif/vf", serves_properties=sorted(CLAIMED),
-                  kind_free_text="bounded symbolic shadow execution of the real pybrops source: ndarray subclass with z3-term cells, DFS path exploration, z3 discharges per-path obligations; counterexamples replayed on real numpy")],
+                  kind_free_text="bounded symbolic shadow execution of the real pybrops source: ndarray subclass with z3-term cells, DFS path exploration, z3 discharges per-path obligations; counterexamples replayed on real numpy"),
+             dict(name="crosshair", path="/verif/vf/ch", serves_properties=["C20"], kind_free_text="crosshair-tool 0.0.110 on harness modules that drive the real classes")],
     checks=checks,
     notes="Solver-based checking of the real code (see DESIGN.md). Exit codes: 0 held, 1 replayed violation, 2 harness error/inconclusive.",
     not_applicable=[dict(property_id=k, reason=v) for k, v in sorted(NA.items())])
